@@ -30,7 +30,10 @@ def RouteSt.init : RouteSt := { rt := RouterM.new {}, customNF := false, customN
 
 /-- the model is at byte level: skip non-ASCII paths when a rune-sensitive regex is registered -/
 def RouteSt.skip (st : RouteSt) (p : Bytes) : Bool :=
-  st.tainted || (st.runeSens && (p.any (· ≥ 0x80) || st.rt.opts.intercept.any (· ≥ 0x80)))
+  st.tainted || (st.runeSens && (p.any (· ≥ 0x80) || st.rt.opts.intercept.any (· ≥ 0x80))) ||
+  -- the executable matcher enumerates match lengths: very long paths against dynamic routes are left to the
+  -- implementation-side oracle (no panic) only
+  (p.length > 600 && (!st.rt.regular.isEmpty || !st.rt.irregular.isEmpty))
 
 def bit (mask k : Nat) : Bool := (mask / k) % 2 = 1
 
